@@ -4,7 +4,9 @@ CONSTANTS
   Warms <- W0
   Free = 3
   Slices <- QSlices
-  Ops <- AllOps
+  Sels <- QSels
+  Items <- NoItems
+  Ops <- ScriptOps
 INVARIANT Shape
 INVARIANT LenIsCalls
 INVARIANT KExact
@@ -14,4 +16,5 @@ INVARIANT IthRecord
 INVARIANT NoAlias
 PROPERTY ArgUnchanged
 PROPERTY ConcatOrder
+PROPERTY IndexShape
 INVARIANT Emit
